@@ -1,6 +1,6 @@
-CONSTANTS PRE = 3 CUT = 5 NBH = 16 BUFSZ = 8 THRESH = 4 MINREAD = 2 FIXRA = FALSE FIXCR = FALSE MAXDOCS = 2
+CONSTANTS PRE = 3 CUT = 5 NBH = 16 BUFSZ = 8 THRESH = 4 MINREAD = 2 FIXRA = TRUE FIXCR = FALSE MAXDOCS = 2
 INIT Init
 NEXT Next
-INVARIANTS ErrAgree NoCleanEnd LineBaseInv PipeCorrectOrKnown PipeSignature FileCorrectOrKnown FileSignature FileRefines
+INVARIANTS ErrAgree NoCleanEnd LineBaseInv PipeNeverDiscarded PipeCorrectOrD13 FileCorrectOrKnown FileSignature FileRefines
 CHECK_DEADLOCK FALSE
 VIEW View
